@@ -29,8 +29,9 @@ namespace {
 const char* kBehaviours[] = { "orderly", "close-mid-request", "half-close", "rst-idle", "rst-unread", "rst-pending",
                               "silence", "partial-then-silence", "tmo", "tmoreply", "file", "file-abort", "async-abort", "never-close", "stream",
                               "silence-close-near-timeout", "silence-abort-near-timeout", "stall-beyond-timeout",
-                              "abandon-at-once-close", "abandon-at-once-abort", "abandon-at-once-half-close" };
-constexpr int kNumBeh = 21;
+                              "abandon-at-once-close", "abandon-at-once-abort", "abandon-at-once-half-close",
+                              "tmo-then-close", "tmo-then-abort" };
+constexpr int kNumBeh = 23;
 
 Json gen(sim::Rng& rng, int tier)
 {
@@ -253,6 +254,11 @@ void run(const Json& plan)
                 st.push_back(httpw::send_step(req("/tmomoved/" + std::to_string(50 + delay / 1000000) + "/" + tag)));
                 st.push_back(httpw::step(Step::Await, kAwait, 1));
                 st.push_back(httpw::step(Step::Close));
+            } else if (b == "tmo-then-close" || b == "tmo-then-abort") {
+                // the handler keeps the writer with an armed time-out; the client is gone before the time-out fires
+                st.push_back(httpw::send_step(req("/tmo/" + std::to_string(100 + delay / 1000000) + "/" + tag)));
+                st.push_back(httpw::step(Step::Pause, 1000000 + delay / 4));
+                st.push_back(httpw::step(b == "tmo-then-close" ? Step::Close : Step::Abort));
             } else if (b == "tmo") {
                 st.push_back(httpw::send_step(req("/tmo/" + std::to_string(50 + delay / 1000000) + "/" + tag)));
                 st.push_back(httpw::step(Step::Await, kAwait, 1));
@@ -354,7 +360,12 @@ void run(const Json& plan)
         if (kv.second > base) r.violation("C08.leak:" + kv.first, std::to_string(kv.second - base) + " " + kv.first + " descriptor(s) still open after all clients were gone and every time-out had elapsed (baseline " + std::to_string(base) + ", now " + std::to_string(kv.second) + ")");
     }
     // peers released
+    // (Which thread lets go of a kept ResponseWriter, and which thread looks at a weak_ptr, is the harness's choice, not
+    // Pistache's: both are done inside an ignore scope so that ThreadSanitizer judges the framework's threads only. That
+    // Timeout's timer continuation writes into the application-owned Timeout object from the worker thread is part of the
+    // recorded Timeout finding.)
     if (http) {
+        sim::IgnoreScope ig;
         {
             std::lock_guard<std::mutex> g(hw.held_mtx);
             hw.held.clear();
@@ -364,6 +375,7 @@ void run(const Json& plan)
             if (!wp.expired()) alive++;
         if (alive) r.violation("C08.leak:peer", std::to_string(alive) + " peer object(s) still referenced by the framework after their connections were gone");
     } else {
+        sim::IgnoreScope ig;
         int alive = 0;
         for (auto& wp : tw.peers)
             if (!wp.expired()) alive++;
